@@ -237,7 +237,7 @@ def run_history(specs, checks, dialect='new', comma=False, res=None):
 # ------------------------------------------------------------------------------------------------
 # Hypothesis rule-based machine over the step kinds of histgen
 
-def make_machine(col, stage, tier, checks, profile=None, max_conns=3, kinds=('message', 'delete', 'bind', 'server_event', 'sync')):
+def make_machine(col, stage, tier, checks, profile=None, max_conns=3, kinds=('message', 'delete', 'bind', 'server_event', 'sync', 'newer', 'retype', 'enum')):
     from hypothesis import strategies as st
     from hypothesis.stateful import RuleBasedStateMachine, rule, initialize, precondition
 
@@ -295,6 +295,15 @@ def make_machine(col, stage, tier, checks, profile=None, max_conns=3, kinds=('me
         if 'sync' in kinds:
             @rule(data=st.data())
             def sync(self, data): self._step(data, 'sync')
+        if 'newer' in kinds:
+            @rule(data=st.data())
+            def newer_than_description(self, data): self._step(data, 'newer')
+        if 'retype' in kinds:
+            @rule(data=st.data())
+            def retype_freed_id(self, data): self._step(data, 'retype')
+        if 'enum' in kinds:
+            @rule(data=st.data())
+            def enum_message(self, data): self._step(data, 'enum')
         if 'deep' in kinds:
             @rule(data=st.data())
             def deep_reuse(self, data): self._step(data, 'deep')
